@@ -95,6 +95,7 @@ type Refusal struct {
 	Status  int             `json:"status"`
 	Message string          `json:"message"`
 	Custom  json.RawMessage `json:"custom"`
+	NilCtx  bool            `json:"nil_ctx"` // the callback returns a nil context together with its refusal
 }
 
 var (
@@ -211,6 +212,9 @@ func Authorize(ctx context.Context, check runtime.SecurityCheck) (context.Contex
 		if err := json.Unmarshal(ref.Custom, &payload); err == nil {
 			se.CustomError = &runtime.CustomError{Payload: payload}
 		}
+	}
+	if ref.NilCtx {
+		return nil, se
 	}
 	return out, se
 }
